@@ -206,3 +206,100 @@ package side_chain_manager
 //@   requires this != nil && source != nil && source.off <= uint64(len(source.s))
 //@   modifies *this, source.off
 //@   loop 1 invariant uint64(len(pks)) == l && source != nil && source.off <= uint64(len(source.s))
+
+// ---- C04: decoders reject malformed bytes without panicking (generated by /verif/tools/gen_decoder_contracts.py, reviewed) ----
+//@ func (*RegisterSideChainParam).Deserialization
+//@   property C04
+//@   mode abstract
+//@   nopanic on
+//@   requires this != nil && source != nil && source.off <= uint64(len(source.s))
+//@   modifies *
+//@   ensures source.off <= uint64(len(source.s))
+
+//@ func (*ChainidParam).Deserialization
+//@   property C04
+//@   mode abstract
+//@   nopanic on
+//@   requires this != nil && source != nil && source.off <= uint64(len(source.s))
+//@   modifies *
+//@   ensures source.off <= uint64(len(source.s))
+
+//@ func (*RegisterRedeemParam).Deserialization
+//@   property C04
+//@   mode abstract
+//@   nopanic on
+//@   requires this != nil && source != nil && source.off <= uint64(len(source.s))
+//@   modifies *
+//@   ensures source.off <= uint64(len(source.s))
+//@   loop 1 invariant this != nil && source != nil && source.off <= uint64(len(source.s))
+
+//@ func (*RegisterAssetParam).Deserialization
+//@   property C04
+//@   mode abstract
+//@   nopanic on
+//@   requires this != nil && source != nil && source.off <= uint64(len(source.s))
+//@   modifies *
+//@   ensures source.off <= uint64(len(source.s))
+//@   loop 1 invariant this != nil && source != nil && source.off <= uint64(len(source.s))
+//@   loop 2 invariant this != nil && source != nil && source.off <= uint64(len(source.s))
+
+//@ func (*AssetBind).Deserialization
+//@   property C04
+//@   mode abstract
+//@   nopanic on
+//@   requires this != nil && source != nil && source.off <= uint64(len(source.s))
+//@   modifies *
+//@   ensures source.off <= uint64(len(source.s))
+//@   loop 1 invariant this != nil && source != nil && source.off <= uint64(len(source.s))
+//@   loop 2 invariant this != nil && source != nil && source.off <= uint64(len(source.s))
+
+//@ func (*UpdateFeeParam).Deserialization
+//@   property C04
+//@   mode abstract
+//@   nopanic on
+//@   requires this != nil && source != nil && source.off <= uint64(len(source.s))
+//@   modifies *
+//@   ensures source.off <= uint64(len(source.s))
+
+//@ func (*SideChain).Deserialization
+//@   property C04
+//@   mode abstract
+//@   nopanic on
+//@   requires this != nil && source != nil && source.off <= uint64(len(source.s))
+//@   modifies *
+//@   ensures source.off <= uint64(len(source.s))
+
+//@ func (*BindSignInfo).Deserialization
+//@   property C04
+//@   mode abstract
+//@   nopanic on
+//@   requires this != nil && source != nil && source.off <= uint64(len(source.s))
+//@   modifies *
+//@   ensures source.off <= uint64(len(source.s))
+//@   loop 1 invariant this != nil && source != nil && source.off <= uint64(len(source.s))
+
+//@ func (*ContractBinded).Deserialization
+//@   property C04
+//@   mode abstract
+//@   nopanic on
+//@   requires this != nil && source != nil && source.off <= uint64(len(source.s))
+//@   modifies *
+//@   ensures source.off <= uint64(len(source.s))
+
+//@ func (*Fee).Deserialization
+//@   property C04
+//@   mode abstract
+//@   nopanic on
+//@   requires this != nil && source != nil && source.off <= uint64(len(source.s))
+//@   modifies *
+//@   ensures source.off <= uint64(len(source.s))
+
+//@ func (*FeeInfo).Deserialization
+//@   property C04
+//@   mode abstract
+//@   nopanic on
+//@   requires this != nil && source != nil && source.off <= uint64(len(source.s))
+//@   modifies *
+//@   ensures source.off <= uint64(len(source.s))
+//@   loop 1 invariant this != nil && source != nil && source.off <= uint64(len(source.s))
+
